@@ -166,9 +166,12 @@ Qed.
 (* ---- round 5 ---- *)
 (* through the engine's default chain the breaker's mark is a success exactly when the client's status is below 500,
    for every response shape; a handler that panics is a failure (RecoverHandler inside turns it into a 500) *)
-Lemma engine_marks : (forall cl c, h_mark cl c = h_benign cl c) /\ (forall cl c, (4 <= cl)%nat -> h_mark cl c = false).
+Lemma engine_marks : (forall cl c, h_mark cl c = h_benign cl c) /\ (forall cl c, (4 <= cl <= 9)%nat -> h_mark cl c = false) /\
+  (forall c, h_mark 10 c = true /\ h_mark 11 c = true).
 Proof.
-  split.
-  - intros cl c. unfold h_mark, h_benign, http_mark. destruct cl as [|[|[|cl]]]; reflexivity.
-  - intros cl c H. destruct cl as [|[|[|[|cl]]]]; try lia; reflexivity.
+  split; [|split].
+  - intros cl c. unfold h_mark, h_benign, http_mark.
+    do 12 (destruct cl as [|cl]; [reflexivity|]). reflexivity.
+  - intros cl c H. do 10 (destruct cl as [|cl]; [try lia; reflexivity|]). lia.
+  - intro c. split; reflexivity.
 Qed.
